@@ -214,6 +214,19 @@ class Ctx:
                                 ok = False
                                 detail += '; digit run failed to parse as %s (empty or overflow, emptiness %s) and yields [%s, %s]: an overflowing run must saturate at %d, an empty one gives 0' % (
                                     oty, {True: 'known empty', False: 'known non-empty', None: 'not tested'}[emp], lo, hi, eng.cfg['arg_max'])
+                # R-CAP (c): when the digit run parses, the value pushed is the parsed number capped at
+                # 9999 - the number itself, not a narrowed or otherwise reduced copy of it (a run like
+                # 4294967299 must saturate, not wrap to 3)
+                oks = [k[1] for k in st_.vn if isinstance(k, tuple) and k and k[0] == 'parse-pay' and st_.vn.get(('tagof', k[1])) == 0]
+                if oks and isinstance(v, NumV):
+                    pay = st_.vn[('parse-pay', max(oks))]
+                    if isinstance(pay, NumV):
+                        from . import plt as _plt
+                        cap = NumV(None, eng.cfg['arg_max'], pay.ty)
+                        okc, wc = _plt.prove_rel(eng, st_, 'eq', v, lambda s_, pay=pay, cap=cap: eng.num_min(s_, pay, cap, pay.ty))
+                        if not okc:
+                            ok = False
+                            detail += '; the pushed value is not shown to be min(parsed number, %d) (%s)' % (eng.cfg['arg_max'], wc)
                 pushes.append(dict(func=c.fr.func, ord=call_ord(c.fr.func, c.bi, '::push'), in_range=ok, detail=detail, span=c.t['span']))
         eng.hooks = [base_hook]
         eng.event_hook = event_hook
